@@ -310,7 +310,15 @@ func aeLarge() []AEReq {
 	for i := 0; i < 5; i++ {
 		five.Entries = append(five.Entries, Entry{Index: uint64(i + 1), Term: 1, Type: 1, Data: Bytes{Len: MiB}})
 	}
-	return []AEReq{one(4*MiB - 64*KiB), one(4*MiB + 1), five}
+	// long suffixes of small entries: the number of entries, not the bytes, is large
+	long := func(n int) AEReq {
+		q := AEReq{LeaderID: "a", Term: 1}
+		for i := 0; i < n; i++ {
+			q.Entries = append(q.Entries, Entry{Index: uint64(i + 1), Term: 1, Type: Types[i%len(Types)], Data: SmallBytes[i%len(SmallBytes)]})
+		}
+		return q
+	}
+	return []AEReq{one(4*MiB - 64*KiB), one(4*MiB + 1), five, long(255), long(256), long(257), long(1000), long(4097), long(10000), long(65537)}
 }
 
 func rpcParts(tier string) []part {
@@ -349,7 +357,7 @@ func rpcParts(tier string) []part {
 				return &RPCCase{RPC: "InstallSnapshot", Dir: dirOf(i), ISReq: &q, ISResp: &r}
 			}},
 		{name: "append-entries-large", n: uint64(len(aeBig)),
-			rule: "AppendEntriesRequest with one entry of 4MiB-64KiB, one entry of 4MiB+1, five entries of 1MiB (the leader ships the whole missing suffix in one request, raft.go:1007-1023): 3 RPCs",
+			rule: "AppendEntriesRequest with one entry of 4MiB-64KiB, one entry of 4MiB+1, five entries of 1MiB, and suffixes of 255, 256, 257, 1000, 4097, 10000 and 65537 small entries (the leader ships the whole missing suffix in one request, raft.go:1007-1023): 10 RPCs",
 			gen: func(i uint64) *RPCCase {
 				q, r := aeBig[i], aeRespAt(rot(i, nAEResp))
 				return &RPCCase{RPC: "AppendEntries", Dir: dirOf(i), AEReq: &q, AEResp: &r}
